@@ -1,6 +1,6 @@
 (* ChainParse.v — C16 at every depth, from the path text: a path made of any number of name steps, each in any of
    the three spellings ( ["k"]  ['k']  .k ), is accepted by the grammar and builds the chain of single-name steps. *)
-From JP Require Import Peg Grammar Slice Text Tree Actions PegFacts PegMono PegEv Codec FuelRules ParseFacts KeyDefs KeyParse IdxParse.
+From JP Require Import Peg Grammar Slice Text Tree Actions PegFacts PegMono PegEv Codec FuelRules ParseFacts KeyDefs KeyParse IdxParse WildParse.
 From Coq Require Import Lia.
 Local Open Scope N_scope.
 Open Scope list_scope.
@@ -10,12 +10,15 @@ Definition step_ok (s : kstep) : bool :=
   | SBr q _ => (q =? 34) || (q =? 39)
   | SDot k => match k with [] => false | _ :: _ => forallb dot_char k end
   | SIdx ds => match ds with [] => false | _ :: _ => forallb is_digit ds && (match atoi ds with Some _ => true | None => false end) end
+  | SWild _ => true
   end.
 Definition step_tokens (p : nat) (s : kstep) : list token :=
   match s with
   | SBr q k => let n := List.length (esc_cps q k) in [TText (p + 2) (p + 2 + n); TAct (qact q); TText p (p + n + 4); TAct 7]
   | SDot k => let n := List.length (esc_dot_cps k) in [TText (p + 1) (p + 1 + n); TAct 10; TText p (p + 1 + n); TAct 4]
   | SIdx ds => idx_tokens p ds
+  | SWild true => [TAct 12; TText p (p + 2); TAct 4]
+  | SWild false => [TAct 12; TText p (p + 3); TAct 7]
   end.
 Fixpoint steps_tokens (p : nat) (steps : list kstep) : list token :=
   match steps with
@@ -32,7 +35,7 @@ Lemma render_len_idx ds : List.length (render_step (SIdx ds)) = (List.length ds 
 Proof. cbn [render_step List.length]. rewrite app_length. cbn [List.length]. lia. Qed.
 
 Lemma steps_stop steps : dot_stop (render_steps steps).
-Proof. destruct steps as [|[q k|k|ds] r]; cbn; auto. Qed.
+Proof. destruct steps as [|[q k|k|ds|[|]] r]; cbn; auto. Qed.
 
 Lemma q_ok q : (q =? 34) || (q =? 39) = true -> q = 34 \/ q = 39.
 Proof. intros H. apply orb_true_iff in H. destruct H as [H|H]; apply N.eqb_eq in H; auto. Qed.
@@ -41,7 +44,7 @@ Proof. intros H. apply orb_true_iff in H. destruct H as [H|H]; apply N.eqb_eq in
 Lemma ev_rule7_step s rest pos : step_ok s = true -> dot_stop rest ->
   evG (PRef 7) (render_step s ++ rest) pos (POk rest (pos + List.length (render_step s)) (step_tokens pos s)).
 Proof.
-  intros Hs Hr. destruct s as [q k|k|ds].
+  intros Hs Hr. destruct s as [q k|k|ds|[|]].
   - cbn [step_ok] in Hs. apply q_ok in Hs. rewrite render_len_br. cbn [render_step step_tokens app].
     rewrite <- app_assoc. cbn [app]. eapply ev_conv; [apply ev_rule7; exact Hs|]. f_equal. lia.
   - destruct k as [|c k]; [discriminate Hs|]. cbn [step_ok] in Hs. rewrite render_len_dot. cbn [render_step step_tokens app].
@@ -49,9 +52,11 @@ Proof.
   - destruct ds as [|d ds]; [discriminate Hs|]. cbn [step_ok] in Hs. apply andb_true_iff in Hs. destruct Hs as [Hd _].
     rewrite render_len_idx. cbn [render_step step_tokens]. cbn [app]. rewrite <- app_assoc. cbn [app].
     eapply ev_conv; [apply (ev_rule7_idx d ds rest pos); exact Hd|]. f_equal. lia.
+  - cbn [render_step step_tokens app List.length]. apply ev_rule7_dotwild. exact Hr.
+  - cbn [render_step step_tokens app List.length]. apply ev_rule7_brwild.
 Qed.
 Lemma render_step_len_pos s : (1 <= List.length (render_step s))%nat.
-Proof. destruct s; cbn [render_step List.length]; lia. Qed.
+Proof. destruct s as [q k|k|ds|[|]]; cbn [render_step List.length]; lia. Qed.
 
 (* the childNode repetition consumes all the steps *)
 Lemma ev_steps_star steps pos : forallb step_ok steps = true ->
@@ -117,9 +122,12 @@ Section ChainExec.
   Definition step_key (s : kstep) : string := string_of_bytes (utf8 (step_cps s)).
   Definition step_idx (ds : list N) : Z := match atoi ds with Some z => z | None => 0%Z end.
   Definition step_kind (s : kstep) : kind :=
-    match s with SIdx ds => KUnion [SubIndex (step_idx ds)] | _ => KSingle (step_key s) end.
+    match s with SIdx ds => KUnion [SubIndex (step_idx ds)] | SWild _ => KWild | _ => KSingle (step_key s) end.
+  (* does the step select a group of values? *)
+  Definition step_vg (s : kstep) : bool := match s with SWild _ => true | _ => false end.
   Definition step_text (s : kstep) : string := text_of (render_step s).
-  Definition pre_basic (s : kstep) : basic := {| text := step_text s; ctext := ""; vgroup := false; accessor := cfg_accessor cfg |}.
+  Definition pre_basic_vg (vg : bool) (s : kstep) : basic := {| text := step_text s; ctext := ""; vgroup := vg; accessor := cfg_accessor cfg |}.
+  Definition pre_basic (s : kstep) : basic := pre_basic_vg (step_vg s) s.
   Definition pre_node (s : kstep) : node := Node (step_kind s) (pre_basic s) ONone.
 
   Lemma step_kind_plain s : (forall ids aw uq, step_kind s <> KMulti ids aw uq) /\ (forall f p, step_kind s <> KAgg f p).
@@ -139,7 +147,7 @@ Section ChainExec.
   Lemma exec_step input p s ps toks cps b rest : step_ok s = true -> skipn p input = render_step s ++ rest ->
     execute (step_tokens p s ++ toks) input cps b (mk ps) = execute toks input (render_step s) p (mk (ps ++ [INode (pre_node s)])).
   Proof.
-    intros Hs Hin. destruct s as [q k|k|ds].
+    intros Hs Hin. destruct s as [q k|k|ds|[|]].
     - cbn [step_ok] in Hs. apply q_ok in Hs. cbn [step_tokens app Actions.execute].
       assert (E1 : sub_list input (p + 2) (p + 2 + List.length (esc_cps q k)) = esc_cps q k).
       { apply (sub_at input p 2 [91; q] (esc_cps q k) ([q; 93] ++ rest)); [|reflexivity]. rewrite Hin. cbn [render_step app]. rewrite <- app_assoc. reflexivity. }
@@ -186,6 +194,24 @@ Section ChainExec.
       fold (mk (ps ++ [INode (Node (KUnion [SubIndex z]) (mk_basic "" false (acc cfg)) ONone)])).
       rewrite set_last_text_mk by discriminate. cbn [abind].
       unfold pre_node, step_kind, step_idx. rewrite Ez. reflexivity.
+    - cbn [step_tokens app Actions.execute].
+      assert (E2 : sub_list input p (p + 2) = render_step (SWild true)).
+      { pose proof (sub_at input p 0 [] (render_step (SWild true)) rest Hin eq_refl) as H. rewrite Nat.add_0_r in H. exact H. }
+      rewrite E2.
+      change (exec_action 12 cps b (mk ps)) with (AOk (push (INode (Node KWild (mk_basic "*" true (acc cfg)) ONone)) (mk ps))). cbn [abind].
+      unfold push, with_params, mk. cbn [params saved proot].
+      change (exec_action 4 (render_step (SWild true)) p ?st) with (set_last_node_text (text_of (render_step (SWild true))) st).
+      fold (mk (ps ++ [INode (Node KWild (mk_basic "*" true (acc cfg)) ONone)])).
+      rewrite set_last_text_mk by discriminate. cbn [abind]. reflexivity.
+    - cbn [step_tokens app Actions.execute].
+      assert (E2 : sub_list input p (p + 3) = render_step (SWild false)).
+      { pose proof (sub_at input p 0 [] (render_step (SWild false)) rest Hin eq_refl) as H. rewrite Nat.add_0_r in H. exact H. }
+      rewrite E2.
+      change (exec_action 12 cps b (mk ps)) with (AOk (push (INode (Node KWild (mk_basic "*" true (acc cfg)) ONone)) (mk ps))). cbn [abind].
+      unfold push, with_params, mk. cbn [params saved proot].
+      change (exec_action 7 (render_step (SWild false)) p ?st) with (set_last_node_text (text_of (render_step (SWild false))) st).
+      fold (mk (ps ++ [INode (Node KWild (mk_basic "*" true (acc cfg)) ONone)])).
+      rewrite set_last_text_mk by discriminate. cbn [abind]. reflexivity.
   Qed.
 
   Lemma exec_steps input steps : forall p ps toks cps b, forallb step_ok steps = true -> skipn p input = render_steps steps ->
@@ -206,11 +232,13 @@ Section ChainExec.
     match l with [] => ONone | s :: r => OSome (Node (step_kind s) (pre_basic s) (chain0 r)) end.
   Fixpoint ctext_of (l : list kstep) : string :=
     match l with [] => ""%string | s :: r => (step_text s ++ ctext_of r)%string end.
-  Definition fin_basic (s : kstep) (r : list kstep) : basic :=
-    {| text := step_text s; ctext := (step_text s ++ ctext_of r)%string; vgroup := false; accessor := cfg_accessor cfg |}.
+  Definition fin_basic (vg : bool) (s : kstep) (r : list kstep) : basic :=
+    {| text := step_text s; ctext := (step_text s ++ ctext_of r)%string; vgroup := vg; accessor := cfg_accessor cfg |}.
   Fixpoint chain1 (l : list kstep) : onode :=
-    match l with [] => ONone | s :: r => OSome (Node (step_kind s) (fin_basic s r) (chain1 r)) end.
-  Definition chain_node (s : kstep) (r : list kstep) : node := Node (step_kind s) (fin_basic s r) (chain1 r).
+    match l with [] => ONone | s :: r => OSome (Node (step_kind s) (fin_basic (step_vg s) s r) (chain1 r)) end.
+  (* the first node carries the value-group flag of the whole path (updateRootValueGroup, deleteRootIdentifier) *)
+  Definition chain_node (s : kstep) (r : list kstep) : node :=
+    Node (step_kind s) (fin_basic (existsb step_vg (s :: r)) s r) (chain1 r).
 
   Lemma append_chain0 k b l s : (forall ids aw uq, k <> KMulti ids aw uq) ->
     append_deep (Node k b (chain0 l)) (pre_node s) = Node k b (chain0 (l ++ [s])).
@@ -232,8 +260,8 @@ Section ChainExec.
     rewrite chain_step_pre, append_chain0 by discriminate. rewrite IH, <- app_assoc. reflexivity.
   Qed.
 
-  Lemma chain0_vg l : match chain0 l with ONone => false | OSome m => chain_vg m end = false.
-  Proof. induction l as [|s r IH]; [reflexivity|]. cbn [chain0 chain_vg pre_basic vgroup orb]. exact IH. Qed.
+  Lemma chain0_vg l : match chain0 l with ONone => false | OSome m => chain_vg m end = existsb step_vg l.
+  Proof. induction l as [|s r IH]; [reflexivity|]. cbn [chain0 chain_vg existsb]. rewrite IH. reflexivity. Qed.
 
   Lemma set_ctext_last k b p : (forall ids aw uq, k <> KMulti ids aw uq) -> (forall f q, k <> KAgg f q) ->
     set_ctext_deep (Node k b ONone) p = Node k (set_ctext (text b ++ p) b) ONone.
@@ -243,12 +271,12 @@ Section ChainExec.
     Node k (set_ctext (text b ++ ctext (node_basic (set_ctext_deep m p))) b) (OSome (set_ctext_deep m p)).
   Proof. intros H1 H2. destruct k; try reflexivity; [contradiction (H1 ids allWild uq)|contradiction (H2 f param)]; reflexivity. Qed.
 
-  Lemma set_ctext_chain s r :
-    set_ctext_deep (Node (step_kind s) (pre_basic s) (chain0 r)) "" = chain_node s r.
+  Lemma set_ctext_chain vg s r :
+    set_ctext_deep (Node (step_kind s) (pre_basic_vg vg s) (chain0 r)) "" = Node (step_kind s) (fin_basic vg s r) (chain1 r).
   Proof.
-    revert s. induction r as [|x r IH]; intros s; destruct (step_kind_plain s) as [P1 P2].
+    revert vg s. induction r as [|x r IH]; intros vg s; destruct (step_kind_plain s) as [P1 P2].
     - cbn [chain0]. rewrite set_ctext_last by assumption. reflexivity.
-    - cbn [chain0]. rewrite set_ctext_next by assumption. rewrite IH. reflexivity.
+    - cbn [chain0]. rewrite set_ctext_next by assumption. unfold pre_basic. rewrite IH. reflexivity.
   Qed.
 
   Definition root_basic : basic := mk_basic "$" false (cfg_accessor cfg).
@@ -265,12 +293,16 @@ Section ChainExec.
     unfold set_node_chain, mk. cbn [params].
     pose proof (chain_fold root_basic (s :: r) []) as F. cbn [map app chain0] in F. rewrite F. clear F.
     cbn [abind with_params params saved proot]. unfold update_root_vg. cbn [params with_params saved proot abind].
-    assert (Ev : update_vg (Node KRoot root_basic (chain0 (s :: r))) = Node KRoot root_basic (chain0 (s :: r))).
-    { unfold update_vg. cbn [chain_vg]. rewrite chain0_vg. reflexivity. }
-    cbn [chain0] in Ev. rewrite Ev. unfold with_params. cbn [params saved proot].
+    assert (Ev : delete_root (update_vg (Node KRoot root_basic (chain0 (s :: r)))) =
+                 Node (step_kind s) (pre_basic_vg (existsb step_vg (s :: r)) s) (chain0 r)).
+    { unfold update_vg. cbn [chain_vg]. rewrite chain0_vg. cbn [root_basic mk_basic vgroup orb].
+      destruct (existsb step_vg (s :: r)) eqn:Ea.
+      - reflexivity.
+      - cbn [existsb] in Ea. apply orb_false_iff in Ea. destruct Ea as [Ea _]. cbn [chain0 delete_root vgroup]. unfold pre_basic. rewrite Ea. reflexivity. }
+    unfold with_params. cbn [params saved proot].
     change (exec_action 0 cps' b' ?st) with
       (abind (pop_node st) (fun '(rt, st1) => AOk {| params := params st1; saved := saved st1; proot := Some (set_ctext_deep (delete_root rt) "") |})).
     unfold pop_node, pop. cbn [params rev app abind with_params saved proot].
-    cbn [chain0 delete_root root_basic mk_basic vgroup]. rewrite set_ctext_chain. reflexivity.
+    cbn [chain0] in Ev. rewrite Ev. rewrite set_ctext_chain. reflexivity.
   Qed.
 End ChainExec.
